@@ -295,6 +295,38 @@ func main() {
 		}
 	}
 
+	// 4. comments trailing a field / member / const on its own line annotate nothing that follows: every alphabet definition
+	// (followed by a second one) with one of four trailing-comment forms after every ';' that ends a line must parse to the
+	// File, doc comments included, that the text without them parses to
+	trailers := []string{" // t1", " /* t2 */", " /* t3 */ // t4", " /* t5 */ /* t6 */ // t7"}
+	for di, d := range a0 {
+		text := textgen.Render([]*textgen.Def{d, a1[(di+1)%len(a1)]}, textgen.Layouts[0])
+		orig := parse(text)
+		if !orig.ok {
+			continue
+		}
+		for ti, tr := range trailers {
+			states++
+			trans++
+			vt := strings.ReplaceAll(text, ";\n", ";"+tr+"\n")
+			if vt == text {
+				continue
+			}
+			v := parse(vt)
+			c := map[string]any{"schema": vt, "definitions": d.Label, "phase": "trailing-comments", "trailer": tr}
+			switch {
+			case v.panic != "":
+				run.Report(fmt.Sprintf("C11|trailing-comments|panic|%s|form=%d", d.Label, ti), "ReadFile panicked: "+v.panic, c)
+			case !v.ok:
+				run.Report(fmt.Sprintf("C11|trailing-comments|rejected|%s|form=%d", d.Label, ti), "a comment trailing a line is rejected: "+v.err, c)
+			case v.canon != orig.canon:
+				run.Report(fmt.Sprintf("C11|trailing-comments|differs|%s|%s|form=%d", aspect(v.canon, orig.canon), d.Label, ti),
+					"comments trailing a field, member or const changed what the File states (a trailing comment belongs to its own line, not to the next definition):\n"+firstDiffLine(v.canon, orig.canon), c)
+			}
+			outcomes.Add("trail" + fmt.Sprint(v.ok))
+		}
+	}
+
 	run.Sample(map[string]any{"layout": "canonical", "schema": textgen.Render([]*textgen.Def{a0[10], a1[16]}, textgen.Layouts[0])})
 	run.Sample(map[string]any{"layout": "crlf-tight-postfix", "schema": textgen.Render([]*textgen.Def{a0[17]}, textgen.Layouts[13])})
 	run.Coverage["states"] = states
